@@ -8,7 +8,7 @@ CLAIM = ("LambertConverter over exact reals with exp/log/pow/tan as engine atoms
          "from symbolic constants (n, c, xs, ys, lon0, e), the images of meridian and parallel are orthogonal with equal local scale "
          "(partials by forward-mode differentiation of the executed IR); (b) the central meridian maps to x == xs; "
          "(c) tangent cones: projection origin -> (x0, y0), scale k0 on the tangent parallel; secant cones of either hemisphere: "
-         "origin -> (x0, y0), scale 1 on the first standard parallel; (d) inverse: the true latitude is a fixed point of the "
+         "origin -> (x0, y0), scale 1 on the first standard parallel; (d) inverse: toWGS84(toLambert(.)) returns the longitude (cone constants +-1/2, +-3/4, both hemispheres); the true latitude is a fixed point of the "
          "computeLatitude iteration (loop abstracted by its last iteration) and toWGS84(toLambert(p)) evaluates no log of a "
          "non-positive number for northern and southern cones; (e) concrete zones (Lambert-93-like, its southern mirror): full round trip to 1e-11 rad natively")
 ASSUMPTIONS = ["exact reals; eccentricity 0 <= e <= 0.1, |lat| <= 83 deg (conformality), 15..75 deg of either hemisphere (cones)",
@@ -17,7 +17,7 @@ ASSUMPTIONS = ["exact reals; eccentricity 0 <= e <= 0.1, |lat| <= 83 deg (confor
                "loop summary is partial correctness: termination of computeLatitude is only observed on the concrete vectors"]
 OUTSIDE = ["scale 1 on the second standard parallel (needs exp(a)exp(b)=exp(a+b) with n = log(u)/(L1-L2))", "convergence rate / termination of the latitude iteration for all inputs",
            "IEEE rounding (1e-11 rad is only observed on concrete zones)", "division-by-zero definedness of n = log(..)/(L1-L2) (reported unconfirmed)",
-           "longitude part of the symbolic inverse"]
+           "longitude part of the symbolic inverse for cone constants other than +-1/2, +-3/4; latitude through the full toWGS84 (needs log congruence)"]
 BOUNDS = dict(quick="8 entries, one path each; solver cap 30 s", thorough="same entries, solver cap 300 s")
 
 def entries(tier):
@@ -29,7 +29,9 @@ def entries(tier):
             Entry("c03_secant", params=dict(south=1), cap=cap),
             Entry("c03_inverse_latitude", summarize_loops=True, cap=cap),
             Entry("c03_inverse_defined", params=dict(south=0), summarize_loops=True, cap=cap),
-            Entry("c03_inverse_defined", params=dict(south=1), summarize_loops=True, cap=cap)]
+            Entry("c03_inverse_defined", params=dict(south=1), summarize_loops=True, cap=cap)] + [
+            Entry("c03_inverse_longitude", params=dict(n=nn), summarize_loops=True, cap=cap, kinds=("check", "witness", "mem", "abort"))
+            for nn in (0.5, -0.5, 0.75, -0.75)]
 
 def tv_vectors(tier):
     D = math.pi / 180
